@@ -10,7 +10,11 @@ abstract machine's theorem needs: *every cycle is charged* —
 * VM: the compiler emits `InstructionLoop` after the loop test's conditional jump and before the body and
   the back-edge jump (`emitContinue`) of both loop forms; `VM.run` dispatches it to `opLoop`, which charges
   `LoopComputationUsage`; `invokeFunction` charges `FunctionInvocationComputationUsage`;
-* call depth: both engines compare against the limit and raise `CallStackLimitExceededError`.
+* call depth: both engines compare against the limit and raise `CallStackLimitExceededError`; the
+  interpreter environment's limit is `runtime.Config.StackDepthLimit` (0 = the default 2000,
+  `newStackDepthLimiter`), the VM environment's is `vmStackDepthLimit` of it: the same, plus one for the
+  entry point's call frame (`Verif.Model.Metered.interpEffectiveLimit` / `vmEffectiveLimit` are these two
+  functions).
 -/
 namespace Verif.Spec.MeterFacts
 open Verif.Gen.MeterFacts
@@ -23,10 +27,12 @@ def pinned : List (String × List String) := [
   ("callers vm.opLoop", ["vm.VM.run"]),
   ("callers vm.opStatement", ["vm.VM.run"]),
   ("depth runtime.stackDepthLimiter.OnFunctionInvocation", ["if limiter.depth <= limiter.limit", "raises interpreter.CallStackLimitExceededError"]),
-  ("depth runtime.vmEnvironment.newVMConfig StackDepthLimit", ["defaultStackDepthLimit"]),
+  ("depth runtime.vmEnvironment.newVMConfig StackDepthLimit", ["vmStackDepthLimit(e.config.StackDepthLimit)"]),
   ("depth vm.VM.pushCallFrame", ["if uint64(len(vm.callstack)) == vm.context.StackDepthLimit", "raises interpreter.CallStackLimitExceededError"]),
   ("dispatch vm.VM.run InstructionLoop", ["opLoop"]),
   ("dispatch vm.VM.run InstructionStatement", ["opStatement"]),
+  ("limit runtime.newStackDepthLimiter", ["if stackDepthLimit == 0", "stackDepthLimit = defaultStackDepthLimit", "end", "return &stackDepthLimiter{limit: stackDepthLimit}"]),
+  ("limit runtime.vmStackDepthLimit", ["if stackDepthLimit == 0", "stackDepthLimit = defaultStackDepthLimit", "end", "if stackDepthLimit < math.MaxUint64", "stackDepthLimit++", "end", "return stackDepthLimit"]),
   ("order compiler.Compiler.VisitForStatement", ["pushControlFlow", "emit:InstructionIteratorHasNext", "emitUndefinedJumpIfFalse", "emit:InstructionLoop", "emit:InstructionIteratorNext", "compileBlock", "emitContinue", "patchJump"]),
   ("order compiler.Compiler.VisitWhileStatement", ["pushControlFlow", "emitUndefinedJumpIfFalse", "emit:InstructionLoop", "compileBlock", "emitContinue", "patchJump"]),
   ("usages interp.for", ["LoopComputationUsage"]),
